@@ -152,7 +152,9 @@ def run(ctx):
     ctx.count(nh, 'history_independence_answers')
     # non-throw codes, weight-specific codes, and the generic throws without an implement table (spec-side list): unchanged
     for ev in ['LJ', '100', 'HJ', '4x100', 'DEC', '60H', 'MAR', 'SP7.26K', 'JT800', 'BT1K', 'OT150',
-               'BT', 'OT', 'ST', 'SWT', 'GDT', 'CT', 'SSP', 'SDT', 'SJT', 'SBT', 'TART', 'OHT', 'CHT', 'H1', 'L9', 'BAL', 'XC', '5K', '24HR']:
+               'BT', 'OT', 'ST', 'SWT', 'GDT', 'CT', 'SSP', 'SDT', 'SJT', 'SBT', 'TART', 'OHT', 'CHT', 'H1', 'L9', 'BAL', 'XC', '5K', '24HR',
+               # accepted spellings with white space inside, lower case: handed back as they came (normalising is another function's job)
+               '400H 67.2cm 9.5m', '400H 33', 'DT 1.5 Kg', 'JT 800', '4 x 100', '3000 SC', 'lj', '4X100', 'dt1.5k', '1 Mile', 'SP 7.26K']:
         for g in ('M', 'F'):
             for ag in ('U13', 'SEN', 'V50'):
                 try: c = athlib.get_specific_event_code(ev, g, ag)
